@@ -575,3 +575,333 @@ FUNCS['_function.__iadd__'] = {
 FUNCS['_function.__isub__'] = {
     'setup': addsub_setup, 'scenarios': {'function': {}},
     'on_outcomes': addsub_outcomes(-1), 'config': {'unroll': 8}}
+
+
+# ------------------------------------ +f, -f, f + g, f - g (new objects)
+# The out-of-place forms build a new function with _function() and fill its
+# four parts.  Same abstract view as above; the object under construction is
+# FNew2 (its attributes are recorded), self and the operand are read only.
+# Contract (property: "f.value() equals the formula ...; +f and the binary
+# operators return new objects that do not alias their operands; combinations
+# that are not convex or concave, or whose dimensions do not match, are
+# refused"):
+#   +f      every part a copy with the same value
+#   -f      constant, linear part negated; the convex terms of -f are the
+#           negated concave terms of f and vice versa
+#   f + g   (g a function) accepted iff the lengths are equal or one is 1 and
+#           both are convex or both concave (ValueError otherwise); constant
+#           and linear part add (a length-1 constant broadcast); the convex
+#           terms are those of f followed by those of g, all copied
+#   f - g   accepted iff f convex and g concave or the other way round; the
+#           convex terms are those of f followed by the negated concave terms
+#           of g, and dually
+#   f + a, f - a  (a an int or float): the constant is shifted, all other
+#           parts are copied
+# and in every case the result is a new object, none of whose parts or terms
+# is an object of an operand, and the operands are left alone.
+class FNew2:
+    abs_object = True
+
+    def abs_getattr(self, ex, st, attr, n):
+        at = st.ghost.get('nattrs', {})
+        if attr in at:
+            return at[attr]
+        return core.NOTFOUND
+
+
+def bin_setattr(orig):
+    def f(ex, st, base, attr, v, s):
+        if isinstance(base, FNew2):
+            st.ghost['nattrs'] = dict(st.ghost.get('nattrs', {}))
+            st.ghost['nattrs'][attr] = v
+            return
+        if isinstance(base, (FSelf, FOther)) and st.ghost.get('binary'):
+            ex.oblige(st, 'binop-frame', z3.BoolVal(False), s,
+                      'the operands of a binary operator are not modified '
+                      '(attribute %s assigned)' % attr, extra={'prop': 'C11'})
+            return
+        return orig(ex, st, base, attr, v, s)
+    f._function_spec = True
+    f._binary = True
+    return f
+
+
+def new_function2(ex, st, args, kwargs, n):
+    if not st.ghost.get('binary'):
+        raise Unsupported('_function() outside the binary-operator scenario')
+    new = FNew2()
+    st.ghost['news'] = st.ghost.get('news', 0) + 1
+    st.ghost['new'] = new
+    st.ghost['nattrs'] = {
+        '_constant': Part('const', lambda i: z3.RealVal(0), ln=Z(1)),
+        '_linear': Part('lin', z3.RealVal(0), empty=z3.BoolVal(True),
+                        ln=Z(1)),
+        '_cvxterms': Seq(Z(0), lambda k: z3.RealVal(0)),
+        '_ccvterms': Seq(Z(0), lambda k: z3.RealVal(0))}
+    for q in st.ghost['nattrs'].values():
+        q.fresh = True
+    return new
+
+
+_comp0 = Seq.abs_comp
+_add0 = Seq.abs_binop
+
+
+def _seq_comp(self, ex, st, n, g, fid):
+    r = _comp0(self, ex, st, n, g, fid)
+    # are the elements of the new list new objects?  (+t, -t, t * a are;
+    # the loop variable itself is not)
+    r.fresh = not (isinstance(n.elt, ast.Name) and isinstance(
+        g.target, ast.Name) and n.elt.id == g.target.id)
+    return r
+
+
+def _seq_add(self, ex, st, op, b, n):
+    r = _add0(self, ex, st, op, b, n)
+    r.fresh = bool(getattr(self, 'fresh', False) and getattr(
+        b, 'fresh', False))
+    return r
+
+
+Seq.abs_comp = _seq_comp
+Seq.abs_binop = _seq_add
+_pb0 = Part.abs_binop
+
+
+def _part_binop(self, ex, st, op, b, n):
+    if isinstance(b, Mat11) and self.kind == 'const' and isinstance(
+            op, (ast.Add, ast.Sub)):
+        sg = 1 if isinstance(op, ast.Add) else -1
+        f1, a = self.val, b.a
+        r = Part('const', lambda i: f1(i) + sg * a, ln=self.ln)
+    else:
+        r = _pb0(self, ex, st, op, b, n)
+    if isinstance(r, Part):
+        r.fresh = True
+    return r
+
+
+_pu0 = Part.abs_unop
+
+
+def _part_unop(self, ex, st, op, n):
+    r = _pu0(self, ex, st, op, n)
+    r.fresh = True
+    return r
+
+
+Part.abs_binop = _part_binop
+Part.abs_unop = _part_unop
+_blen2 = L.ext['builtins.len']
+
+
+def _mat11_binop(self, ex, st, op, b, n):
+    # matrix(a) - constant
+    if isinstance(b, Part) and b.kind == 'const' and isinstance(
+            op, (ast.Add, ast.Sub)):
+        sg = 1 if isinstance(op, ast.Add) else -1
+        f1, a = b.val, self.a
+        r = Part('const', lambda i: a + sg * f1(i), ln=b.ln)
+        r.fresh = True
+        return r
+    raise Unsupported('operation on a 1x1 matrix')
+
+
+Mat11.abs_binop = _mat11_binop
+
+
+def b_len2(ex, st, args, kwargs, n):
+    if isinstance(args[0], Mat11):
+        return I(Z(1))
+    return _blen2(ex, st, args, kwargs, n)
+
+
+def m_matrix2(ex, st, args, kwargs, n):
+    a = real_of(ex, st, args[0]) if args else None
+    if a is not None and len(args) == 1 and set(kwargs) <= {'tc'}:
+        return Mat11(a)
+    return m_matrix(ex, st, args, kwargs, n)
+
+
+def bin_setup(sc):
+    def setup(ex, st, fid, fn):
+        addsub_setup({})(ex, st, fid, fn)
+        L.ext['cvxopt.modeling._function'] = new_function2
+        L.ext['builtins.len'] = b_len2
+        L.ext['cvxopt.modeling.matrix'] = m_matrix2
+        L.pure.update(['cvxopt.modeling._function'])
+        if not getattr(L.setattr, '_binary', False):
+            L.setattr = bin_setattr(L.setattr)
+        st.ghost['binary'] = True
+        st.ghost['attrs0'] = dict(st.ghost['attrs'])
+        fr = st.frames[fid]
+        if sc.get('other') == 'float':
+            fr['other'] = R(z3.Real('a'))
+        elif sc.get('other') == 'none':
+            fr.pop('other', None)
+    return setup
+
+
+def bin_outcomes(opname, sign, unary=False, reflected=False):
+    def on_outcomes(ex, outs):
+        class N:
+            lineno = 0
+            col_offset = 0
+        P = {'prop': 'C11'}
+        i, k = z3.Int('i'), z3.Int('k')
+        nret = 0
+        for o in outs:
+            st = o.st
+            Lf, lc, cf, gf, hf, lv, ng, nh, a = st.ghost['init']
+            L2, lc2, c2, g2, h2, l2, ng2, nh2 = st.ghost['other']
+            node = N()
+            fr = st.frames[min(st.frames)] if st.frames else {}
+            scalar = not unary and not isinstance(
+                st.ghost.get('operand'), FOther)
+            if unary:
+                okcurv, oklen = z3.BoolVal(True), z3.BoolVal(True)
+            elif scalar:
+                okcurv, oklen = z3.BoolVal(True), z3.BoolVal(True)
+            else:
+                okcurv = z3.Or(z3.And(nh == 0, nh2 == 0),
+                               z3.And(ng == 0, ng2 == 0)) if sign > 0 else \
+                    z3.Or(z3.And(nh == 0, ng2 == 0),
+                          z3.And(ng == 0, nh2 == 0))
+                oklen = z3.Or(L2 == Lf, L2 == 1, Lf == 1)
+            if o.kind == 'raise':
+                node.lineno = o.val[2] if len(o.val) > 2 else 0
+                ex.oblige(st, 'binop-refuses', z3.And(
+                    z3.BoolVal(o.val[0] == 'ValueError'),
+                    z3.Not(z3.And(okcurv, oklen))), node,
+                    '%s is refused (ValueError) only if the lengths do not '
+                    'match or the result would be neither convex nor '
+                    'concave (%s)' % (opname, o.val[0]), extra=P)
+                continue
+            nret += 1
+            ex.oblige(st, 'binop-accepts', z3.And(okcurv, oklen), node,
+                      '%s is accepted only for matching lengths and a result '
+                      'that is convex or concave' % opname, extra=P)
+            at = st.ghost.get('nattrs', {})
+            ex.oblige(st, 'binop-fresh', z3.BoolVal(
+                o.val is st.ghost.get('new') and st.ghost.get('news') == 1),
+                node, '%s returns the new function it built' % opname,
+                extra=P)
+            same = all(st.ghost['attrs'].get(q) is st.ghost['attrs0'].get(q)
+                       for q in st.ghost['attrs0'])
+            ex.oblige(st, 'binop-frame', z3.BoolVal(same), node,
+                      '%s leaves the attributes of self alone' % opname,
+                      extra=P)
+            c1, l1, g1, h1 = at.get('_constant'), at.get('_linear'), \
+                at.get('_cvxterms'), at.get('_ccvterms')
+            ok = isinstance(c1, Part) and isinstance(l1, Part) and \
+                isinstance(g1, Seq) and isinstance(h1, Seq)
+            if not ok:
+                ex.oblige(st, 'binop-value', z3.BoolVal(False), node,
+                          'the parts of the result have their kinds',
+                          extra=P)
+                continue
+            ex.oblige(st, 'binop-fresh', z3.BoolVal(all(getattr(
+                q, 'fresh', False) for q in (c1, l1, g1, h1))), node,
+                '%s: constant, linear part and every term of the result are '
+                'new objects (copies), not objects of an operand' % opname,
+                extra=P)
+            n0 = len(st.pc)
+            st.pc += [i >= 0, k >= 0, okcurv, oklen]
+            bc = lambda f_, ln_, j_: f_(z3.If(ln_ == 1, Z(0), j_))
+            if unary:
+                s0 = sign
+                st.pc.append(i < lc)
+                ex.oblige(st, 'binop-value', z3.And(
+                    c1.ln == lc, c1.val(i) == s0 * cf(i),
+                    l1.val == s0 * lv), node,
+                    '%s: constant and linear part are %s those of f' % (
+                        opname, 'minus' if s0 < 0 else 'equal to'), extra=P)
+                if s0 > 0:
+                    wg, wh = (ng, lambda kk: gf(kk)), (nh, lambda kk: hf(kk))
+                else:
+                    wg, wh = (nh, lambda kk: -hf(kk)), (ng, lambda kk:
+                                                       -gf(kk))
+            elif scalar:
+                av = z3.Real('a')
+                st.pc.append(i < lc)
+                if reflected:
+                    # a - f
+                    ex.oblige(st, 'binop-value', z3.And(
+                        c1.ln == lc, c1.val(i) == av - cf(i),
+                        l1.val == -lv), node,
+                        '%s: the constant is the number minus the constant '
+                        'of f, the linear part is negated' % opname, extra=P)
+                    wg, wh = (nh, lambda kk: -hf(kk)), (ng, lambda kk:
+                                                       -gf(kk))
+                else:
+                    ex.oblige(st, 'binop-value', z3.And(
+                        c1.ln == lc, c1.val(i) == cf(i) + sign * av,
+                        l1.val == lv), node,
+                        '%s: the constant is shifted by the number, the '
+                        'linear part is that of f' % opname, extra=P)
+                    wg, wh = (ng, lambda kk: gf(kk)), (nh, lambda kk: hf(kk))
+            else:
+                Lr = z3.If(Lf == 1, L2, Lf)
+                st.pc.append(i < Lr)
+                want_c = bc(cf, lc, i) + sign * bc(c2, lc2, i)
+                ex.oblige(st, 'binop-value', z3.And(
+                    z3.Or(c1.ln == 1, c1.ln == Lr),
+                    bc(c1.val, c1.ln, i) == want_c,
+                    z3.Implies(c1.ln == 1, z3.And(lc == 1, lc2 == 1)),
+                    l1.val == lv + sign * l2), node,
+                    '%s: the constant is the sum (difference) of the '
+                    'constants, a length-1 constant being broadcast, the '
+                    'linear part the sum (difference) of the linear parts'
+                    % opname, extra=P)
+                if sign > 0:
+                    wg = (ng + ng2, lambda kk: z3.If(kk < ng, gf(kk),
+                                                     g2(kk - ng)))
+                    wh = (nh + nh2, lambda kk: z3.If(kk < nh, hf(kk),
+                                                     h2(kk - nh)))
+                else:
+                    wg = (ng + nh2, lambda kk: z3.If(kk < ng, gf(kk),
+                                                     -h2(kk - ng)))
+                    wh = (nh + ng2, lambda kk: z3.If(kk < nh, hf(kk),
+                                                     -g2(kk - nh)))
+            ex.oblige(st, 'binop-value', z3.And(
+                g1.n == wg[0], h1.n == wh[0],
+                z3.Implies(k < wg[0], g1.val(k) == wg[1](k)),
+                z3.Implies(k < wh[0], h1.val(k) == wh[1](k))), node,
+                '%s: the convex and the concave terms of the result are the '
+                'ones the formula gives, in the list of their curvature' %
+                opname, extra=P)
+            del st.pc[n0:]
+        if outs:
+            ex.oblige(outs[0].st, 'covered', z3.BoolVal(nret >= 1), N(),
+                      '%s returns (%d paths)' % (opname, nret), extra=P)
+        return {'paths': len(outs), 'returns': nret}
+    return on_outcomes
+
+
+def _bin_setup_mark(sc):
+    inner = bin_setup(sc)
+
+    def setup(ex, st, fid, fn):
+        inner(ex, st, fid, fn)
+        st.ghost['operand'] = st.frames[fid].get('other')
+    return setup
+
+
+for _nm, _sign in (('__add__', 1), ('__sub__', -1)):
+    FUNCS['_function.' + _nm] = {
+        'setup': _bin_setup_mark,
+        'scenarios': {'function': {}, 'float': {'other': 'float'}},
+        'on_outcomes': bin_outcomes('f %s g' % ('+' if _sign > 0 else '-'),
+                                    _sign), 'config': {'unroll': 8}}
+FUNCS['_function.__pos__'] = {
+    'setup': _bin_setup_mark, 'scenarios': {'unary': {'other': 'none'}},
+    'on_outcomes': bin_outcomes('+f', 1, unary=True),
+    'config': {'unroll': 8}}
+FUNCS['_function.__neg__'] = {
+    'setup': _bin_setup_mark, 'scenarios': {'unary': {'other': 'none'}},
+    'on_outcomes': bin_outcomes('-f', -1, unary=True),
+    'config': {'unroll': 8}}
+FUNCS['_function.__rsub__'] = {
+    'setup': _bin_setup_mark, 'scenarios': {'float': {'other': 'float'}},
+    'on_outcomes': bin_outcomes('a - f', -1, reflected=True),
+    'config': {'unroll': 8}}
